@@ -4,3 +4,5 @@ import HopModel.Props.C03
 import HopModel.Props.C15
 import HopModel.Props.C01
 import HopModel.Props.C02
+import HopModel.Props.C13
+import HopModel.Props.C12
